@@ -25,9 +25,6 @@ ASSUMPTIONS = ["HashMap::insert returns None iff the key was absent"]
 
 SUM = "writer::summarize::Summarize"
 
-LEAF_ORDER = ["event::Step", "event::Hook", "event::Scenario", "event::Rule", "event::Feature", "event::Cucumber",
-              "std::result::Result"]
-
 # (counter, op, leaf adt, variants, retry polarity) -> allowed extra guard atoms (regexes)
 TABLE = {
     ("parsing_errors", "+1", "Result", "Err", None): [],
@@ -49,74 +46,17 @@ COUNTERS = {"parsing_errors", "features", "rules", "failed_hooks", "steps.passed
             "steps.retried", "scenarios.passed", "scenarios.skipped", "scenarios.failed", "scenarios.retried"}
 
 
-def leaf(ctx):
-    for adt in LEAF_ORDER:
-        if adt in ctx:
-            if adt == "std::result::Result" and ctx[adt] != frozenset(["Err"]):
-                continue
-            return adt.rsplit("::", 1)[-1], "+".join(sorted(ctx[adt]))
-    return None, None
-
-
 def summarize_writes(F):
     root, bodies = W.handler_bodies(F, SUM)
     ws = [w for w in W.counter_writes(F, SUM, bodies) if w.name in COUNTERS]
     return root, bodies, ws
 
 
+leaf = W.leaf
+
+
 def r1(F, R):
-    root, bodies, ws = summarize_writes(F)
-    seen = set()
-    for w in ws:
-        ctx = W.context(F, w.body, w.site, bodies, root)
-        ladt, lvar = leaf(ctx)
-        rg = W.retry_guard(F, w.body, w.site)
-        pol = rg[0] if rg else None
-        sig = (w.name, w.op, ladt, lvar, pol)
-        inst = f"{w.name}{w.op}@{ladt}::{lvar}" + (f"/{pol}" if pol else "")
-        if "event::Indicator" in ctx or "writer::summarize::Indicator" in ctx:
-            ind = ctx.get("writer::summarize::Indicator")
-            if ind:
-                inst += f"[{'+'.join(sorted(ind))}]"
-        if sig not in TABLE:
-            R.violation(f"unexpected/{inst}", w.site, f"counter `{w.name}` is changed ({w.op}) under {ladt}::{lvar}"
-                        f"{' on the ' + pol + ' edge' if pol else ''}: not in the counter <-> event table")
-            continue
-        seen.add(sig)
-        # four routes: Background+Step, rule-level + feature-level
-        if ladt in ("Step",):
-            sc = ctx.get("event::Scenario", frozenset())
-            R.check(sc == frozenset(["Background", "Step"]), f"routes/{inst}/bg+step", w.site, "counts background and regular steps",
-                    f"`{w.name}` counts only {sorted(sc)} step events")
-        if ladt in ("Step", "Hook", "Scenario"):
-            fe = ctx.get("event::Feature", frozenset())
-            R.check(fe == frozenset(["Rule", "Scenario"]), f"routes/{inst}/rule+feature", w.site, "counts rule-level and feature-level scenarios",
-                    f"`{w.name}` counts only scenarios reached via Feature::{sorted(fe)}")
-        # no extra condition
-        extra = []
-        for g in A.guards_of(w.body, w.site):
-            d = g.cond_def()
-            if d is None or d[0] == "discr":
-                continue
-            if d[0] == "multi":
-                continue  # matches!-style bool, handled by the variant constraints
-            if rg and d[0] == "call" and callee_is(d[2], r"Option::<.*>::(is_some|is_none|is_some_and)$") and pol:
-                # the retry predicate itself
-                sl = A.slice_back(w.body, [d[2]["args"][0]])
-                if sl.has_call(r"Option::<.*>::filter$") or callee_is(d[2], r"is_some_and$"):
-                    continue
-            atom = A.describe_operand(w.body, g.term["discr"])
-            if any(re.search(rx, atom) for rx in TABLE[sig]):
-                continue
-            extra.append(atom)
-        R.check(not extra, f"unconditional/{inst}", w.site, "no extra condition on the write",
-                f"`{w.name}` {w.op} under {ladt}::{lvar} is additionally conditioned on {extra}")
-        R.ok(f"table/{inst}", w.site, "in table")
-    for sig in TABLE:
-        if sig not in seen:
-            name, op, ladt, lvar, pol = sig
-            R.violation(f"missing/{name}{op}@{ladt}::{lvar}" + (f"/{pol}" if pol else ""), root,
-                        f"no write `{name}` {op} under {ladt}::{lvar}{' (' + pol + ')' if pol else ''}: those events are no longer counted")
+    W.check_counter_table(F, R, SUM, TABLE, COUNTERS)
     R.floor(30)
 
 
